@@ -70,6 +70,9 @@ def programs():
     b2 = {"max": 2, "window": 4}
     bud("one-left consume||consume", b2, [("consume", 1)], [[("consume", 1)], [("consume", 1)]])
     bud("consume2||consume1", b2, [], [[("consume", 2)], [("consume", 1)]])
+    bud("one-left consume2||consume1", b2, [("consume", 1)], [[("consume", 2)], [("consume", 1)]])
+    bud("two-left-of-three consume3||consume1||remaining", {"max": 3, "window": 4}, [("consume", 1)],
+        [[("consume", 3)], [("consume", 1)], [("remaining",)]])
     bud("consume||remaining", b2, [("consume", 1)], [[("consume", 1)], [("remaining",)]])
     bud("three consumers two tokens", b2, [],
         [[("consume", 1)], [("consume", 1)], [("consume", 1)]])
